@@ -179,7 +179,8 @@ ROUTES = {
     "as_array": lambda n, x, s, kw: n.aspolynomial(x, **kw), "as_poly": lambda n, x, s, kw: n.aspolynomial(tpoly(s), **kw),
     "attrs": lambda n, x, s, kw: tpoly(s, **kw), "attrs_clean": lambda n, x, s, kw: tpoly(s, retain_coefficients=False, retain_names=False, **kw),
     "dict": lambda n, x, s, kw: n.polynomial(_dict(s), names=tuple(s["names"]), **kw), "poly": lambda n, x, s, kw: n.polynomial(tpoly(s), **kw),
-    "struct": lambda n, x, s, kw: n.polynomial(tpoly(s).values, names=tuple(s["names"])), "compose": lambda n, x, s, kw: n.polynomial(_items(s), **kw),
+    "struct": lambda n, x, s, kw: n.polynomial(tpoly(s).values, names=tuple(s["names"]), **kw),
+    "as_struct": lambda n, x, s, kw: n.aspolynomial(tpoly(s).values, names=tuple(s["names"]), **kw), "compose": lambda n, x, s, kw: n.polynomial(_items(s), **kw),
     "iter": lambda n, x, s, kw: n.polynomial(list(tpoly(s))), "copy": lambda n, x, s, kw: tpoly(s).copy(),
     "astype": lambda n, x, s, kw: tpoly(s).astype(kw["dtype"]), "astype_dtype_object": lambda n, x, s, kw: tpoly(s).astype(numpy.dtype(kw["dtype"])),
 }
@@ -211,7 +212,7 @@ def gen_mixed(tier, rng, pairs):
 
 
 CTORS = ["array", "scalar", "as_array", "attrs", "attrs_clean", "dict", "poly", "struct", "compose", "iter", "copy"]
-DCTORS = ["array", "as_array", "as_poly", "poly", "attrs", "dict", "compose", "astype", "astype_dtype_object"]
+DCTORS = ["array", "as_array", "as_poly", "poly", "attrs", "dict", "compose", "astype", "astype_dtype_object", "struct", "as_struct"]
 
 
 def gen_from_data(tier, rng):
@@ -266,10 +267,10 @@ def only(*ctors):
     return lambda tier, rng: (i for i in gen_request(tier, rng) if i["ctor"] in ctors)
 
 
-@check("C12", "construct.dtype_request", only("array", "as_array", "as_poly", "poly", "attrs", "dict", *MIXED),
+@check("C12", "construct.dtype_request", only("array", "as_array", "as_poly", "poly", "attrs", "dict", "struct", "as_struct", *MIXED),
        functions=("numpoly.polynomial", "numpoly.aspolynomial", "numpoly.polynomial_from_attributes"),
-       note="bounded: all 196 ordered dtype pairs x 6 routes with dtype= (ndarray, aspolynomial of ndarray/ndpoly, ndpoly, "
-            "attributes, dict); expected = numpy.array(data, a).astype(b); data (incl. dtype extremes) restricted to values whose "
+       note="bounded: all 196 ordered dtype pairs x 8 routes with dtype= (ndarray, aspolynomial of ndarray/ndpoly, ndpoly, "
+            "attributes, dict, raw structured array through polynomial and aspolynomial); expected = numpy.array(data, a).astype(b); data (incl. dtype extremes) restricted to values whose "
             "C cast a->b is defined and finite; <=3 terms, <=2 indeterminates, 5 shapes; plus the 6 mixed-dtype-column routes of "
             "construct.from_data with dtype= (equal to the first column's dtype half of the time)")
 @quiet
@@ -518,25 +519,41 @@ def gen_square(tier, rng):
             for via in ("operator", "numpoly.power", "numpoly.square"):
                 for _ in range(count(tier, 1, 12)):
                     yield {"via": via, "x": {"kind": kind, "p": tspec(rng, a, rng.choice(SHAPES), small=True, const=kind == "const")}}
+            # other exponents, scalar and as an array: 0 (the constant one of the operand's dtype and shape), 1, 3
+            for k in (0, 0, 1, 3):
+                for via in ("operator", "numpoly.power"):
+                    yield {"via": via, "k": k, "array_exponent": rng.random() < 0.3,
+                           "x": {"kind": kind, "p": tspec(rng, a, rng.choice(SHAPES), small=True, const=kind == "const")}}
 
 
 @check("C12", "arith.square_dtype", gen_square, functions=("numpoly.power", "numpoly.square", "numpoly.multiply"),
        note="bounded: 14 dtypes x constant/non-constant x (p**2, numpoly.power(p, 2), numpoly.square(p)); expected dtype is that of "
-            "numpy's x**2 / numpy.square(x) on a plain array of the dtype (bool**2 is int8), values = product in that dtype")
+            "numpy's x**2 / numpy.square(x) on a plain array of the dtype (bool**2 is int8), values = product in that dtype; also p**0 "
+            "(ones of the operand's dtype and shape), p**1, p**3 with the exponent as a number or as an array")
 @quiet
 def square_dtype(inp):
     import numpoly
     s = inp["x"]["p"]
     shape = tuple(s["shape"])
     z = numpy.zeros(shape, dtype=s["dtype"])
+    k = inp.get("k", 2)
+    e = numpy.full(shape, k, dtype=int) if inp.get("array_exponent") and shape else k
     try:
-        probe = numpy.square(z) if inp["via"] == "numpoly.square" else z ** 2
+        # (the dtype is that of a power with a NUMBER as exponent: an exponent array is a table of integers, not coefficient data,
+        # and numpy's promotion with its int64 dtype is not what C12 speaks about)
+        probe = numpy.square(z) if inp["via"] == "numpoly.square" else z ** k
     except TypeError:
         return None
     X = cast_terms(terms(s), probe.dtype)
     x = opnd(inp["x"])
-    r = x ** 2 if inp["via"] == "operator" else (numpoly.power(x, 2) if inp["via"] == "numpoly.power" else numpoly.square(x))
-    return judge(r, np_mul(X, X), probe.dtype, shape)
+    r = x ** e if inp["via"] == "operator" else (numpoly.power(x, e) if inp["via"] == "numpoly.power" else numpoly.square(x))
+    if k == 0:
+        want = [(MPoly.mono(s["names"], [0] * len(s["names"])), numpy.ones(shape, dtype=probe.dtype))]
+    else:
+        want = X
+        for _ in range(k - 1):
+            want = np_mul(want, X)
+    return judge(r, want, probe.dtype, shape)
 
 
 # ------------------------------------------------------------------ indexing and shape functions keep dtype and values
